@@ -53,6 +53,7 @@ BehSets ==
                            << <<"p", "a", "mixed">>, <<"p", "b", "nothing">>, <<"q", "b", "ignore">>, <<"q", "c", "skip">>, <<"r", "a", "nothing">>, <<"r", "b", "nothing">>, <<"r", "c", "nothing">> >> }
       [] Menu = "C02" -> IF Lite THEN { << <<"p", "b", "ignore">>, <<"q", "a", "nothing">> >> }
                          ELSE { <<>>, << <<"p", "b", "ignore">>, <<"q", "a", "nothing">> >> }
+      [] Menu = "C05" -> { <<>>, << <<"p", "a", "skip">>, <<"p", "b", "nothing">>, <<"q", "c", "skip">> >> }     \* packages that feed state into an instance without rendering
       [] OTHER -> { <<>>, << <<"q", "b", "ignore">>, <<"r", "c", "nothing">> >> }
 
 Prefixes ==
